@@ -434,7 +434,7 @@ fn bind_range_index(
             eval::eval_expr_to_index(context, scopes, end)
                     .context(EvalEndIndexFailed)?
         } else {
-            rhs_len
+            lock_deref!(lhs_items).len()
         };
 
     let list_len = lock_deref!(lhs_items).len();
